@@ -1035,6 +1035,9 @@ func NewEvent(mach *Machine, machApi Api) *Event {
 
 // Mutation returns the Mutation of an Event.
 func (e *Event) Mutation() *Mutation {
+	if e.Machine() == nil {
+		return nil
+	}
 	t := e.Machine().Transition()
 	if t == nil {
 		return nil
@@ -1107,11 +1110,13 @@ func (e *Event) SwapArgs(args A) *Event {
 
 func (e *Event) String() string {
 	mach := e.Machine()
-	if mach == nil {
-		return e.Mutation().String()
+	mut := e.Mutation()
+	// events without a machine or outside of a transition
+	if mach == nil || mut == nil {
+		return e.Name
 	}
 
-	return e.Mutation().StringFromIndex(mach.StateNames())
+	return mut.StringFromIndex(mach.StateNames())
 }
 
 // ///// ///// /////
